@@ -258,6 +258,9 @@ EXPR_WRAPPERS = {
     ('built_in_join.rs::evaluate_join', 'out += &s;'): 'str_append(&mut out, &s);',
     # atom!(out) is Unifiable::Atom(out.to_string()); ToString for String is the blanket impl over Display (no specification possible)
     ('built_in_join.rs::evaluate_join', 'atom!(out)'): 'atom_of_string(&out)',
+    # ToString for String is the blanket impl over Display: no specification possible
+    ('unifiable.rs::Unifiable::replace_variables', 's.to_string()'): 'string_copy(s)',
+    ('unifiable.rs::Unifiable::replace_variables', 'name.to_string()'): 'string_copy(name)',
     # line_reader is generic over AsRef<Path> (File::open + BufReader::lines): external, with the assumed specification that
     # it yields the lines of the named file (spec/io.rs)
     ('rule_reader.rs::read_facts_and_rules', 'line_reader(file_name)'): 'verif_line_reader(file_name)',
